@@ -5,6 +5,8 @@ import (
 	"go/token"
 	"sort"
 	"strings"
+	"verif/tools/policyx"
+	"verif/tools/relang"
 
 	"golang.org/x/tools/go/ssa"
 
@@ -29,6 +31,85 @@ func runC20(c *Ctx) {
 		sub := &Ctx{P: c.P, R: newScratchReport(), Tier: c.Tier, VerifDir: c.VerifDir}
 		E8, S8 := c13SharedWrites(sub, "C13.R1", "", true)
 		R.Cite(map[string]string{"C13.R4": "C20.R8"}, func() { c13MapOrder(c, E8, S8) })
+	}
+	R.Rule("C20.R9", "the shipped policies stay inside the class the property speaks of: StrictPolicy and UGCPolicy attach no value pattern to a URL attribute (href, src, cite — the documented exception being cite on del/ins) or to sandbox, and a pattern on rel, target or crossorigin accepts, with every value, also what the sanitiser makes of it (value + \" nofollow\" / \" noreferrer\" / \" noopener\"; \"_blank\"; \"anonymous\") — a pattern is judged before the rewrite, so the second pass judges the rewritten value")
+	{
+		ev9 := policyx.New(c.P)
+		n9 := 0
+		for _, name := range []string{"StrictPolicy", "UGCPolicy"} {
+			fn := c.P.Func(load.ModPath, name)
+			if fn == nil {
+				R.Unknown("C20.R9", "ctor:"+name, name, "", "constructor not found")
+				continue
+			}
+			t, err := ev9.EvalConstructor(fn)
+			if err != nil {
+				R.Unknown("C20.R9", "ctor:"+name, name, c.P.Pos(fn.Pos()), "the constructor's rule table cannot be extracted: "+err.Error())
+				continue
+			}
+			n9++
+			// URL attributes: normalisation is not decided, so no pattern at all (cite on del/ins is the documented exception);
+			// rel / target / crossorigin: the pattern must be closed under what the sanitiser does to the value — for every
+			// accepted v also v+" nofollow", v+" noreferrer", v+" noopener" (rel); "_blank" (target); "anonymous" (crossorigin);
+			// sandbox is rebuilt from the listed tokens: no pattern
+			var bad []string
+			judge := func(el string, r policyx.AttrRule) {
+				if !r.HasPat {
+					return
+				}
+				switch r.Attr {
+				case "href", "src", "cite":
+					if !(r.Attr == "cite" && (el == "del" || el == "ins")) {
+						bad = append(bad, el+"@"+r.Attr+" (a URL attribute)")
+					}
+				case "sandbox":
+					bad = append(bad, el+"@"+r.Attr)
+				case "rel", "target", "crossorigin":
+					bld := relang.NewBuilder()
+					if err := bld.AddPattern(r.Pattern); err != nil {
+						bad = append(bad, el+"@"+r.Attr+" (pattern does not parse)")
+						return
+					}
+					for _, w := range []string{" nofollow", " noreferrer", " noopener", "_blank", "anonymous"} {
+						bld.AddString(w)
+					}
+					al := bld.Build()
+					L, err := relang.FromRegexp(r.Pattern, al)
+					if err != nil {
+						bad = append(bad, el+"@"+r.Attr+" (pattern does not parse)")
+						return
+					}
+					switch r.Attr {
+					case "rel":
+						for _, tok := range []string{" nofollow", " noreferrer", " noopener"} {
+							if sub, w := relang.Subset(relang.Concat(L, relang.Literal(al, tok)), L); !sub {
+								bad = append(bad, fmt.Sprintf("%s@rel (accepts %q but not that value with the token the sanitiser appends: %q)", el, strings.TrimSuffix(w, tok), w))
+								break
+							}
+						}
+					case "target":
+						if sub, _ := relang.Subset(relang.Literal(al, "_blank"), L); !sub {
+							bad = append(bad, el+"@target (does not accept the value the sanitiser writes, \"_blank\")")
+						}
+					case "crossorigin":
+						if sub, _ := relang.Subset(relang.Literal(al, "anonymous"), L); !sub {
+							bad = append(bad, el+"@crossorigin (does not accept the value the sanitiser writes, \"anonymous\")")
+						}
+					}
+				}
+			}
+			for el, rs := range t.ElemAttrs {
+				for _, r := range rs {
+					judge(el, r)
+				}
+			}
+			for _, r := range t.GlobalAttrs {
+				judge("*", r)
+			}
+			sort.Strings(bad)
+			R.Check(len(bad) == 0, "C20.R9", "ctor:"+name, name+": value patterns on attributes the sanitiser rewrites", c.P.Pos(fn.Pos()), "none on URL attributes and sandbox (apart from cite on del/ins); patterns on rel / target / crossorigin closed under the sanitiser's own rewrite (exact language inclusion)", "value pattern on "+strings.Join(bad, "; ")+": the first pass judges the value as written and then rewrites it, the second pass judges the rewritten value by the same pattern — it can drop what the first pass kept")
+		}
+		R.Role("C20.R9", "shipped constructors evaluated", n9, 2)
 	}
 	R.Rule("C20.R3", "single serialiser: every destination write of sanitize has payload Token.String() (or a space, or raw data under allowUnsafe) — the escaping that the tokenizer's unescaping inverts; written once per token is C06.R2")
 	R.Assume(TrustGo, "idempotence of net/url normalisation and of the x/net/html decode/escape round trip is NOT decided", "the del/ins cite exception of UGCPolicy is outside the claimed clause")
